@@ -299,6 +299,10 @@ def main(cli_argv=None, return_args=False):
             )
         sync_properties(**args_dict)
     elif command == "gen":
+        # Same treatment as the file arguments of `sync`: `~` means the home directory however the shell passed it on
+        args_dict["output_filename"] = args.output_filename = path.realpath(
+            path.expanduser(args.output_filename)
+        )
         if path.isfile(args.output_filename):
             raise IOError(
                 "File exists and this is a destructive operation. Delete/move {!r} then"
